@@ -329,3 +329,8 @@ mod tests {
         }
     }
 }
+
+#[cfg(kani)]
+pub(crate) mod verif {
+    include!(concat!(env!("LIBP2P_VERIF"), "/hooks/kad_record_store_memory.rs"));
+}
